@@ -45,6 +45,7 @@ class CompanionPairingHandler(PairingHandler):
     async def begin(self) -> None:
         """Start pairing process."""
         _LOGGER.debug("Start pairing Companion")
+        self._has_paired = False
         await error_handler(
             self.pairing_procedure.start_pairing, exceptions.PairingError
         )
